@@ -51,11 +51,10 @@ def combos():
 
 
 def ring_shapes():
-    b = CertShape()
-    return [
-        replace(b, kid=1, is_ca=2),
-        replace(b, issuance=1, aki=True, kid=0, ikid=2, is_ca=0),
-    ]
+    # Whole artefacts in the `ring` configuration are intractable: there SignatureAlgorithm carries a data-carrying enum
+    # (SignAlgo), and CBMC does not constant-propagate reads from such statics, so even the algorithm OIDs become symbolic.
+    # The hash-based key-identifier methods are decided by the unit `key_id_derive` instead.
+    return []
 
 
 def run_mir(tier, seed):
@@ -79,8 +78,8 @@ def spec(tier, seed):
         for k in (0, 2, 3, 4, 5, 6):
             more.append(replace(b, eku=(k, 7)))
         for iss in (1, 2):
-            for ik in (0, 1, 2, 3):
-                more.append(replace(b, issuance=iss, aki=True, ikid=ik, kid=(ik + 1) % 4, is_ca=2))
+            for ikl in (0, 1, 3, 4):
+                more.append(replace(b, issuance=iss, aki=True, ikid_len=ikl, kid_len=(ikl + 1) % 5, is_ca=2))
         for k in range(5):
             more.append(replace(b, nc=2, nc_perm=(k, (k + 1) % 5), nc_excl=((k + 2) % 5,)))
         for n in (0, 1, 2, 3, 4):
